@@ -21,12 +21,12 @@ claim("C01", "Theorem C01: for every non-empty list of literal items, all 4 flag
       "every item holds (master theorem + alignment); C01_locality; C01_end_to_end (from the listing text); C01_pipeline (the whole modelled operation runOp: config, YAML front end, typing, compilation, parsing, stream, search)." + COMMON, "DESIGN.md 0.2, 7 C01",
       "Hypotheses: literal names (no regex metacharacters, no , |), operand names not of the form [0-9a-f]+h (finding D11), "
       "records of at most 1000 characters, lower-case hex addresses, no :: inside a record body.")
-claim("C02", "Theorems C02_bounds (times {lo,hi} = n-fold composition, lo <= n <= hi, each repetition consuming what one occurrence "
+claim("C02", "Theorems C02_rule_den / C02_pipeline (whole operation: the rule file with times n and the one with the item written n times give the same verdict); C02_bounds (times {lo,hi} = n-fold composition, lo <= n <= hi, each repetition consuming what one occurrence "
       "consumes), C02_unroll (times n = written n times, at regex level), C02_spellings, for every item/group of the capture-free "
       "literal fragment." + COMMON, "DESIGN.md 0.2, 7 C02", "Fragment: items and $and/$or/$not/$and_any_order groups nested arbitrarily; no captures inside (C05).")
 claim("C03", "Theorems C03_or / C03_and / C03_anyOrder (some permutation q ~ l, each child once) at instruction and operand level, "
       "C03_no_merge, C03_perms; C03_verdict (engine search = executable specification foundSpec on the fragment) and C03_pipeline (whole operation runOp on the YAML text of any rule of the fragment = foundSpec)." + COMMON, "DESIGN.md 0.2, 7 C03", "$deref fields containing $or: correspondence only.")
-claim("C04", "Theorems C04_instruction, C04_operand (exactly one instruction/operand, iff the argument fails there), C04_seq." + COMMON,
+claim("C04", "Theorems C04_verdict / C04_pipeline (whole operation: [$not X, Y] is found iff an instruction at which X fails is immediately followed by Y); C04_instruction, C04_operand (exactly one instruction/operand, iff the argument fails there), C04_seq." + COMMON,
       "DESIGN.md 0.2, 7 C04", "Capture-free literal fragment; the repairs D2+D3 are part of the tree.")
 claim("C05", "Theorem C05_spine: environment-threaded master theorem for the capture spine (engine groups by registration index mirror "
       "bindings by name; first occurrence binds the whole instruction body / whole non-empty operand, later occurrences match only "
@@ -42,7 +42,7 @@ claim("C06", "Theorems C06_rx (language of the compiled $deref = the specificati
       "the model)." + COMMON, "DESIGN.md 0.2, 7 C06",
       "Literal components free of + * ] ( ) ,; C06_exact needs index register and scale named together (otherwise D17); "
       "an independent component-agreement oracle written from the property text judges the one-operand cases of the differential.")
-claim("C07", "Theorems C07_all / C07_first (every reported match is the text of whole consecutive records n..n+k-1 and the reported address "
+claim("C07", "Theorems C07_pipeline (whole operation: reported texts are runs of whole instructions of the listing, reported addresses those of their first instructions); C07_all / C07_first (every reported match is the text of whole consecutive records n..n+k-1 and the reported address "
       "is that of record n), C07_no_span_*; C07_any_counterexample for the shipped @any." + COMMON, "DESIGN.md 0.2, 7 C07",
       "Capture-free literal fragment with any operator leading, compiled regex without empty match (syntactic class nonNull proved); @any: finding D6.")
 claim("C08", "Theorems C08_inst, C08_line, C08_listing, C08_stream: parser o renderer over the objdump grammar yields exactly one stream "
